@@ -27,6 +27,7 @@ import GM.Props.C20
 import GM.Props.C05a
 import GM.Props.C02a
 import GM.Props.Blocks
+import GM.Props.Inlines
 
 namespace GM.Props.C01
 open GM
@@ -75,5 +76,11 @@ theorem atx_open_no_panic : type_of% @GM.Props.C02a.atx_open_noPanic := @GM.Prop
     `GM.Props.Blocks.NoPanic` and not yet proved; no panic was seen on 17.8M sources.) -/
 theorem block_phase_terminates : type_of% @GM.Props.Blocks.parseBlocks_fuel_suffices := @GM.Props.Blocks.parseBlocks_fuel_suffices
 theorem block_phase_outcome : type_of% @GM.Props.Blocks.parseBlocks_outcome := @GM.Props.Blocks.parseBlocks_outcome
+
+/-- The delimiter-processing loop of the INLINE PHASE (emphasis matching over the delimiter list, as modelled in
+    GM.Model.Inlines and tied to the real parser by the `inlines` correspondence) terminates without a Go panic
+    for every child list. (Termination/no-panic of the whole inline phase with the concrete parsers is stated in
+    notes/status_inlines.md and not yet proved; none occurred on 16.6M sources.) -/
+theorem process_delimiters_terminates : type_of% @GM.Props.Inlines.processDelimiters_terminates_no_panic := @GM.Props.Inlines.processDelimiters_terminates_no_panic
 
 end GM.Props.C01
